@@ -331,6 +331,8 @@ var tplMenu = []string{
 	"@(default(fields.gender, globals.org_name))", "@webhook.json.x", "@(format_date(fields.joined))", "@fields", "@contact.groups",
 	"@(contact.fields.age + 1)", "@legacy_extra.foo", "@trigger.params.x", "@node.uuid", "@ticket.topic.name",
 	"@globals.age", "@(fields.age >= globals.age)",
+	"@run.contact.fields.gender", "@RUN.Contact.Fields.Joined", "@(run.contact.fields[\"phone\"])", "@(upper(run.contact.fields.nick))",
+	"@(PARENT.Contact.FIELDS.gender)", "@(child.contact.fields[\"age\"])", "@(globals[\"greeting\"])", "@run.contact.name",
 }
 
 func (g *gctx) tpl() string { return hx.Pick(g.r, tplMenu) }
